@@ -254,7 +254,7 @@ Definition preferred_isinstance (k : skind) (p : plain) : bool :=
   match k, p with
   | KBin, (PBytes _ | PByteArray _) => true
   | KBool, PBool _ => true
-  | (KStr | KJis), (PBytes _ | PStr _) => true
+  | (KStr | KJis), PStr _ => true                 (* bytes are preferred by Binary alone (D71) *)
   | KNum n, (PInt _ | PBool _) => negb (num_base_is_float n)
   | KNum n, PFloat _ => num_base_is_float n
   | _, _ => false
